@@ -18,6 +18,11 @@
 // (d) all failover histories through the real client request loop
 //
 //	(doRequest) against scripted servers; the final success is a real /sign.
+//
+// (e) abandoned upload attempts, (f) the options channel (options.go), (g) the
+// result put into the file (resign.go), (h) options that name a client-side
+// file, whose content travels in the upload stream (fileopts.go), (i) inputs
+// that already carry a signature, under the read schedules of (b) (signed.go).
 package main
 
 import (
@@ -36,6 +41,7 @@ import (
 	"net/url"
 	"os"
 	"path/filepath"
+	"sort"
 	"strings"
 	"sync"
 	"sync/atomic"
@@ -64,6 +70,18 @@ type stream struct {
 	File       string // path of the input
 	Flags      url.Values
 	Hash       crypto.Hash
+	// OtherSlot: option values that put a signature into another slot of the
+	// same file (a .deb holds one signature per role)
+	OtherSlot url.Values
+	// NoPrior: no already-signed variants of this stream (a detached signature
+	// is not carried by its input; the 2 MiB archive is there for the block
+	// boundaries, the small one of its type stands for it)
+	NoPrior bool
+	// derived streams
+	Prior        string   // how the input was signed before ("" = the fixture as it is)
+	FileOpts     []string // options naming client-side files that are set (fileopts.go)
+	Ref          string   // the same input signed standalone with the same options, where the harness can read the embedded digests
+	ThoroughOnly bool     // read schedules only in the thorough tier
 }
 
 func mkAPK(path string, payload int) {
@@ -107,7 +125,7 @@ func streams() []stream {
 	}
 	return []stream{
 		{Name: "appx-incompressible-members", SigType: "appx", File: noisy, Hash: crypto.SHA256},
-		{Name: "apk-2.1MiB-stored", SigType: "apk", File: apk, Hash: crypto.SHA256},
+		{Name: "apk-2.1MiB-stored", SigType: "apk", File: apk, Hash: crypto.SHA256, NoPrior: true},
 		{Name: "apk-around-1MiB", SigType: "apk", File: small, Hash: crypto.SHA256},
 		{Name: "appx-300KiB", SigType: "appx", File: filepath.Join(pk, "App1_1.0.3.0_x64.appx"), Hash: crypto.SHA256},
 		{Name: "pe-page-hashes", SigType: "pe-coff", File: filepath.Join(pk, "ClassLibrary1.dll"), Flags: url.Values{"page-hashes": {"true"}}, Hash: crypto.SHA256},
@@ -118,19 +136,20 @@ func streams() []stream {
 		{Name: "macho", SigType: "mach-o", File: filepath.Join(pk, "slimfile.app/dummyapp"), Hash: crypto.SHA256},
 		{Name: "dmg", SigType: "dmg", File: filepath.Join(pk, "dummy.dmg"), Hash: crypto.SHA256},
 		{Name: "ps1", SigType: "ps", File: filepath.Join(pk, "hello.ps1"), Flags: url.Values{"ps-style": {".ps1"}}, Hash: crypto.SHA256},
+		{Name: "apk-1KiB", SigType: "apk", File: filepath.Join(pk, "dummy.apk"), Hash: crypto.SHA256},
 		// every other type's client-side transform must be re-readable too (a
 		// retry after a failed upload reads it again)
-		{RereadOnly: true, Name: "pgp-detached", SigType: "pgp", File: filepath.Join(pk, "Release"), Hash: crypto.SHA256},
-		{RereadOnly: true, Name: "pgp-clearsign", SigType: "pgp", File: filepath.Join(pk, "Release"), Flags: url.Values{"clearsign": {"true"}}, Hash: crypto.SHA256},
-		{RereadOnly: true, Name: "pgp-inline", SigType: "pgp", File: filepath.Join(pk, "Release"), Flags: url.Values{"inline": {"true"}}, Hash: crypto.SHA256},
-		{RereadOnly: true, Name: "deb", SigType: "deb", File: filepath.Join(pk, "zlib1g_1.2.8.dfsg-5_i386.deb"), Hash: crypto.SHA256},
+		{RereadOnly: true, NoPrior: true, Name: "pgp-detached", SigType: "pgp", File: filepath.Join(pk, "Release"), Hash: crypto.SHA256},
+		{RereadOnly: true, NoPrior: true, Name: "pgp-clearsign", SigType: "pgp", File: filepath.Join(pk, "Release"), Flags: url.Values{"clearsign": {"true"}}, Hash: crypto.SHA256},
+		{RereadOnly: true, NoPrior: true, Name: "pgp-inline", SigType: "pgp", File: filepath.Join(pk, "Release"), Flags: url.Values{"inline": {"true"}}, Hash: crypto.SHA256},
+		{RereadOnly: true, Name: "deb", SigType: "deb", File: filepath.Join(pk, "zlib1g_1.2.8.dfsg-5_i386.deb"), Hash: crypto.SHA256, OtherSlot: url.Values{"role": {"origin"}}},
 		{RereadOnly: true, Name: "rpm", SigType: "rpm", File: filepath.Join(pk, "rocky-basesystem-11-13.el9.noarch.rpm"), Hash: crypto.SHA256},
 		{RereadOnly: true, Name: "cat", SigType: "cat", File: filepath.Join(pk, "hyperv.cat"), Hash: crypto.SHA256},
 		{RereadOnly: true, Name: "appmanifest", SigType: "appmanifest", File: filepath.Join(pk, "WindowsFormsApplication1.exe.manifest"), Hash: crypto.SHA256},
 		{RereadOnly: true, Name: "vsix", SigType: "vsix", File: filepath.Join(pk, "VSIXProject1.vsix"), Hash: crypto.SHA256},
 		{RereadOnly: true, Name: "xar", SigType: "xar", File: filepath.Join(pk, "dummy.pkg"), Hash: crypto.SHA256},
-		{RereadOnly: true, Name: "ps1xml", SigType: "ps", File: filepath.Join(pk, "hello.ps1xml"), Hash: crypto.SHA256},
-		{RereadOnly: true, Name: "mof", SigType: "ps", File: filepath.Join(pk, "hello.mof"), Hash: crypto.SHA256},
+		{RereadOnly: true, Name: "ps1xml", SigType: "ps", File: filepath.Join(pk, "hello.ps1xml"), Flags: url.Values{"ps-style": {".ps1xml"}}, Hash: crypto.SHA256},
+		{RereadOnly: true, Name: "mof", SigType: "ps", File: filepath.Join(pk, "hello.mof"), Flags: url.Values{"ps-style": {".mof"}}, Hash: crypto.SHA256},
 	}
 }
 
@@ -315,21 +334,34 @@ func rereadPhase(ss []stream) map[string][]byte {
 }
 
 // signWith runs the server-side Sign on the given reader and applies the
-// result to a copy of the input; returns a verification error or nil.
-func signWith(cfg *config.Config, s stream, r io.Reader, workdir string) error {
+// result to a copy of the input; returns a verification error or nil, and,
+// where the result is a binary patch, the places of the input it replaces.
+func signWith(cfg *config.Config, s stream, r io.Reader, workdir string) (regions string, err error) {
 	mod := signers.ByName(s.SigType)
 	tok, err := relicx.OpenTokenByKey(cfg, "rsaA")
 	if err != nil {
-		return err
+		return "", err
 	}
 	cert, opts, err := bridge.SignInit(context.Background(), mod, tok, "rsaA", s.Hash, mustFlags(mod, s.Flags))
 	if err != nil {
-		return err
+		return "", err
 	}
 	blob, err := mod.Sign(r, cert, *opts)
 	if err != nil {
-		return fmt.Errorf("sign: %w", err)
+		return "", fmt.Errorf("sign: %w", err)
 	}
+	if opts.Audit.GetMimeType() == binpatchMimeType {
+		if regions, err = patchRegions(blob); err != nil {
+			return "", fmt.Errorf("sign: result is announced as a binary patch: %w", err)
+		}
+	}
+	err = applyAndVerify(s, mod, opts.Audit.GetMimeType(), blob, workdir)
+	return regions, err
+}
+
+const binpatchMimeType = "application/x-binary-patch"
+
+func applyAndVerify(s stream, mod *signers.Signer, mimeType string, blob []byte, workdir string) error {
 	out := filepath.Join(workdir, filepath.Base(s.File))
 	copyFile(s.File, out)
 	f, err := os.OpenFile(out, os.O_RDWR, 0)
@@ -342,7 +374,7 @@ func signWith(cfg *config.Config, s stream, r io.Reader, workdir string) error {
 		f.Close()
 		return err
 	}
-	err = tr.Apply(out, opts.Audit.GetMimeType(), bytes.NewReader(blob))
+	err = tr.Apply(out, mimeType, bytes.NewReader(blob))
 	f.Close()
 	if err != nil {
 		return fmt.Errorf("apply: %w", err)
@@ -358,8 +390,16 @@ func signWith(cfg *config.Config, s stream, r io.Reader, workdir string) error {
 			return err
 		}
 	}
+	if st, err := os.Stat(out); err == nil && st.Size() > fileSize(s.File)+(8<<20) {
+		return fmt.Errorf("apply: result is %d bytes long, the input %d", st.Size(), fileSize(s.File))
+	}
 	if _, err := relicx.Verify(out, relicx.TrustOpts()); err != nil {
 		return fmt.Errorf("verify: %w", err)
+	}
+	if s.Ref != "" {
+		if err := sameEmbeddedDigests(s.SigType, out, s.Ref); err != nil {
+			return fmt.Errorf("embedded: %w", err)
+		}
 	}
 	return nil
 }
@@ -372,7 +412,7 @@ func chunkPhase(cfg *config.Config, ss []stream, uploads map[string][]byte) {
 	var jobs []job
 	for _, s := range ss {
 		data := uploads[s.Name]
-		if data == nil || s.RereadOnly {
+		if data == nil || s.RereadOnly || (s.ThoroughOnly && !run.Thorough()) {
 			continue
 		}
 		defReads := (len(data) + 32767) / 32768
@@ -389,6 +429,10 @@ func chunkPhase(cfg *config.Config, ss []stream, uploads map[string][]byte) {
 	}
 	var done int64
 	var wd sync.Map
+	// the places of the input that the result replaces, per stream: one set
+	// whatever the schedule
+	var regMu sync.Mutex
+	regionsSeen := map[string]map[string]string{} // stream -> regions -> first schedule
 	vlib.Parallel(len(jobs), 16, func(i int) {
 		jb := jobs[i]
 		dirI, _ := wd.LoadOrStore(i%64, filepath.Join(scratch, fmt.Sprintf("w%d", i%64)))
@@ -396,12 +440,34 @@ func chunkPhase(cfg *config.Config, ss []stream, uploads map[string][]byte) {
 		os.MkdirAll(dir, 0o755)
 		defer os.RemoveAll(dir)
 		r := &schedReader{data: uploads[jb.s.Name], sizes: jb.sc.f}
-		err := signWith(cfg, jb.s, r, dir)
+		regions, err := signWith(cfg, jb.s, r, dir)
 		atomic.AddInt64(&done, 1)
 		run.Eval(1)
 		run.Distinct(jb.s.Name + "|" + jb.sc.Name)
 		if i%97 == 0 {
 			run.Sample(map[string]any{"stream": jb.s.Name, "schedule": jb.sc.Name, "reads": r.reads, "bytes": len(r.data)})
+		}
+		// class of the stream in violation keys: the type, and what is special
+		// about the input
+		class := jb.s.SigType
+		if jb.s.Prior != "" {
+			class += ":" + jb.s.Prior
+		}
+		if len(jb.s.FileOpts) > 0 {
+			class += ":file-options"
+		}
+		kind := jb.sc.Name[:strings.Index(jb.sc.Name, "(")]
+		if err == nil || !strings.HasPrefix(err.Error(), "sign:") {
+			regMu.Lock()
+			m := regionsSeen[jb.s.Name]
+			if m == nil {
+				m = map[string]string{}
+				regionsSeen[jb.s.Name] = m
+			}
+			if _, ok := m[regions]; !ok {
+				m[regions] = jb.sc.Name
+			}
+			regMu.Unlock()
 		}
 		if err != nil {
 			cls := "other"
@@ -410,13 +476,44 @@ func chunkPhase(cfg *config.Config, ss []stream, uploads map[string][]byte) {
 				cls = "digest-depends-on-read-sizes"
 			case strings.HasPrefix(err.Error(), "sign:"):
 				cls = "sign-fails-for-some-read-sizes"
+			case strings.HasPrefix(err.Error(), "apply:"):
+				cls = "result-cannot-be-applied"
+			case strings.HasPrefix(err.Error(), "embedded:"):
+				cls = "embedded-digests-differ-from-standalone-signing"
 			}
-			kind := jb.sc.Name[:strings.Index(jb.sc.Name, "(")]
-			run.Violation("chunking:"+cls+":"+jb.s.SigType+":"+kind, fmt.Sprintf("stream %s with read schedule %s: %v", jb.s.Name, jb.sc.Name, err), map[string]any{"stream": jb.s.Name, "schedule": jb.sc.Name})
+			run.Violation("chunking:"+cls+":"+class+":"+kind, fmt.Sprintf("stream %s with read schedule %s: %v", jb.s.Name, jb.sc.Name, err), map[string]any{"stream": jb.s.Name, "schedule": jb.sc.Name})
 			return
 		}
 		run.Outcome("chunking:" + jb.s.Name + ":ok")
 	})
+	for _, s := range ss {
+		m := regionsSeen[s.Name]
+		if len(m) < 2 {
+			if len(m) == 1 && s.Prior != "" {
+				for reg := range m {
+					if reg != "" {
+						run.Outcome("chunking:replaced-places-independent-of-schedule:already-signed")
+					} else {
+						run.Outcome("chunking:result-is-not-a-patch:already-signed")
+					}
+				}
+			}
+			continue
+		}
+		var alts []string
+		for reg, sc := range m {
+			alts = append(alts, fmt.Sprintf("[%s] first with %s", reg, sc))
+		}
+		sort.Strings(alts)
+		class := s.SigType
+		if s.Prior != "" {
+			class += ":" + s.Prior
+		}
+		if len(s.FileOpts) > 0 {
+			class += ":file-options"
+		}
+		run.Violation("chunking:replaced-places-depend-on-read-sizes:"+class, fmt.Sprintf("stream %s: the result names different places of the input (offset-length removed) under different read schedules: %s", s.Name, strings.Join(alts, "; ")), map[string]any{"stream": s.Name, "alternatives": alts})
+	}
 	run.Set("read_schedules_run", done)
 }
 
@@ -428,7 +525,16 @@ func (f rt) RoundTrip(r *http.Request) (*http.Response, error) { return f(r) }
 
 var attemptOutcomes = []string{"ok", "503", "500", "406", "refused", "403"}
 
-func clientPhase(cfg *config.Config) {
+// clientSubject: what is signed through the request loop
+type clientSubject struct {
+	name    string // "" for the plain archive every configuration is run with
+	sigType string
+	in      string
+	flags   url.Values
+	ref     string // standalone result to compare the embedded digests with
+}
+
+func clientPhase(cfg *config.Config, extra []stream) {
 	// the client loop reports failover progress on stdout
 	realStdout := os.Stdout
 	if devnull, err := os.OpenFile(os.DevNull, os.O_WRONLY, 0); err == nil {
@@ -447,186 +553,226 @@ func clientPhase(cfg *config.Config) {
 		lastBody, _ = io.ReadAll(r.Body)
 		w.WriteHeader(204)
 	}))
-	in := filepath.Join(relicx.Packages, "hello.jar")
-	mod := signers.ByName("jar")
-	encodingsAlphabet := []string{"", "gzip", "x-snappy-framed", "x-snappy-framed, gzip", "br, x-unknown"}
-	serversList := []int{1, 2, 3}
-	retriesList := []int{1, 3}
-	for _, enc := range encodingsAlphabet {
-		for _, nsrv := range serversList {
-			for _, retries := range retriesList {
-				if enc != "" && enc != "gzip" && (nsrv == 3 || retries == 3) && !run.Thorough() {
-					continue
-				}
-				var bases []string
-				for i := 0; i < nsrv; i++ {
-					bases = append(bases, fmt.Sprintf("https://s%d.invalid/", i))
-				}
-				cfg.Remote = &config.RemoteConfig{Retries: retries}
-				relicx.Use(cfg)
-				budget := nsrv
-				if retries > budget {
-					budget = retries
-					for budget%nsrv != 0 {
-						budget++
+	subjects := []clientSubject{{sigType: "jar", in: filepath.Join(relicx.Packages, "hello.jar")}}
+	// streams that carry more than the input file (options naming client-side
+	// files): the body of every attempt is built from the transform again
+	for _, s := range extra {
+		if s.ThoroughOnly && !run.Thorough() {
+			continue
+		}
+		subjects = append(subjects, clientSubject{name: s.Name, sigType: s.SigType, in: s.File, flags: s.Flags, ref: s.Ref})
+	}
+	for _, subj := range subjects {
+		in := subj.in
+		base := filepath.Base(in)
+		mod := signers.ByName(subj.sigType)
+		encodingsAlphabet := []string{"", "gzip", "x-snappy-framed", "x-snappy-framed, gzip", "br, x-unknown"}
+		serversList := []int{1, 2, 3}
+		retriesList := []int{1, 3}
+		if subj.name != "" {
+			// the configurations in which a second and a third attempt exist, with
+			// and without a compressor between the transform and the wire
+			serversList, retriesList = []int{2}, []int{1}
+			if !run.Thorough() {
+				encodingsAlphabet = []string{"", "gzip"}
+			}
+		}
+		for _, enc := range encodingsAlphabet {
+			for _, nsrv := range serversList {
+				for _, retries := range retriesList {
+					if enc != "" && enc != "gzip" && (nsrv == 3 || retries == 3) && !run.Thorough() {
+						continue
 					}
-				}
-				v0 := run.NumViolations()
-				st := mc.Explore(mc.Options{MaxDeviations: -1, Stop: func() bool { return run.NumViolations() > v0 }}, func(c *mc.Ctx) {
-					work := filepath.Join(scratch, "client")
-					os.MkdirAll(work, 0o755)
-					out := filepath.Join(work, "hello.jar")
-					copyFile(in, out)
-					f, err := os.OpenFile(out, os.O_RDWR, 0)
-					if err != nil {
-						panic(err)
+					var bases []string
+					for i := 0; i < nsrv; i++ {
+						bases = append(bases, fmt.Sprintf("https://s%d.invalid/", i))
 					}
-					defer f.Close()
-					opts := signers.SignOpts{Path: out, Hash: crypto.SHA256, Flags: mustFlags(mod, nil)}
-					tr, err := mod.GetTransform(f, opts)
-					if err != nil {
-						panic(err)
-					}
-					type att struct {
-						host, outcome, reqEnc string
-						bodyHash              [32]byte
-					}
-					var attempts []att
-					hc := &http.Client{Transport: rt(func(req *http.Request) (*http.Response, error) {
-						if len(attempts) >= 2*budget+2 {
-							// horizon: the loop has long exceeded its attempt budget; end it
-							// with a permanent answer (judged below as a violation)
-							attempts = append(attempts, att{host: req.URL.Host, outcome: "403"})
-							return &http.Response{StatusCode: 403, Status: "403 X", Header: http.Header{}, Body: io.NopCloser(strings.NewReader("horizon")), Request: req}, nil
+					cfg.Remote = &config.RemoteConfig{Retries: retries}
+					relicx.Use(cfg)
+					budget := nsrv
+					if retries > budget {
+						budget = retries
+						for budget%nsrv != 0 {
+							budget++
 						}
-						k := c.Choose(len(attemptOutcomes), fmt.Sprintf("attempt-%d", len(attempts)+1))
-						o := attemptOutcomes[k]
-						a := att{host: req.URL.Host, outcome: o, reqEnc: req.Header.Get("Content-Encoding")}
-						// what the server would see after decoding
-						raw, _ := io.ReadAll(req.Body)
-						dreq := httptest.NewRequest("POST", "/x", bytes.NewReader(raw))
-						dreq.Header.Set("Content-Encoding", a.reqEnc)
-						lastBody = nil
-						decoder.ServeHTTP(httptest.NewRecorder(), dreq)
-						a.bodyHash = sha256.Sum256(lastBody)
-						attempts = append(attempts, a)
-						mk := func(code int) *http.Response {
-							return &http.Response{StatusCode: code, Status: fmt.Sprintf("%d X", code), Header: http.Header{}, Body: io.NopCloser(strings.NewReader("scripted")), Request: req}
-						}
-						switch o {
-						case "ok":
-							sreq := httptest.NewRequest(req.Method, req.URL.RequestURI(), bytes.NewReader(raw))
-							sreq.Header = req.Header.Clone()
-							sreq.RemoteAddr = "192.0.2.77:4444"
-							sreq.TLS = &tls.ConnectionState{PeerCertificates: []*x509.Certificate{relicx.ClientCert()}}
-							rec := httptest.NewRecorder()
-							handler.ServeHTTP(rec, sreq)
-							res := rec.Result()
-							res.Request = req
-							return res, nil
-						case "503":
-							return mk(503), nil
-						case "500":
-							return mk(500), nil
-						case "406":
-							return mk(406), nil
-						case "403":
-							return mk(403), nil
-						case "refused":
-							return nil, &url.Error{Op: "Post", URL: req.URL.String(), Err: &os.SyscallError{Syscall: "connect", Err: syscall.ECONNREFUSED}}
-						}
-						panic("unreachable")
-					})}
-					q := url.Values{}
-					q.Set("key", "rsaA")
-					q.Set("filename", "hello.jar")
-					q.Set("sigtype", "jar")
-					resp, derr := remotecmd.VerifDoRequest(cfg.Remote, hc, bases, "sign", "POST", enc, &q, tr)
-					run.Eval(1)
-					var hist []string
-					for _, a := range attempts {
-						hist = append(hist, a.host[:2]+":"+a.outcome+"/"+a.reqEnc)
 					}
-					desc := fmt.Sprintf("accept-encoding %q, %d servers, retries %d: attempts [%s] -> err=%v", enc, nsrv, retries, strings.Join(hist, " "), derr)
-					replay := map[string]any{"encodings": enc, "servers": nsrv, "retries": retries, "choices": c.Trace}
-					if len(attempts) > 1 {
-						run.Distinct(desc)
-					}
-					if len(attempts) == 3 && c.Trace[0] == 1 {
-						run.Sample(desc)
-					}
-					if len(attempts) > 2*budget+1 {
-						run.Violation("failover:more-attempts-than-budget", desc, replay)
-						return
-					}
-					// reference walk
-					// the client restarts once without compression after a 406 whenever
-					// it had been told any server encodings at all
-					compressed := enc != ""
-					expectOK := false
-					restarted := false
-					idx := 0 // index into the (repeated) server list
-					for i, a := range attempts {
-						last := i == len(attempts)-1
-						wantHost := fmt.Sprintf("s%d", idx%nsrv)
-						if !strings.HasPrefix(a.host, wantHost) {
-							run.Violation("failover:servers-not-tried-in-order", desc, replay)
-							return
-						}
-						if a.bodyHash != attempts[0].bodyHash {
-							run.Violation("failover:request-body-differs-between-attempts", fmt.Sprintf("%s: attempt %d decodes to %x, attempt 1 to %x", desc, i+1, a.bodyHash[:6], attempts[0].bodyHash[:6]), replay)
-							return
-						}
-						if restarted && a.reqEnc != "" {
-							run.Violation("failover:compression-not-dropped-after-406", desc, replay)
-						}
-						switch a.outcome {
-						case "ok":
-							expectOK = true
-							if !last {
-								run.Violation("failover:attempt-after-success", desc, replay)
-							}
-						case "403":
-							if !last {
-								run.Violation("failover:permanent-error-retried", desc, replay)
-							}
-						case "406":
-							if compressed && !restarted {
-								restarted = true
-								idx = -1 // start over at the first server, uncompressed
-							} else if !last {
-								run.Violation("failover:406-without-compression-retried", desc, replay)
-							}
-						default: // transient
-							if last && idx+1 < budget && !(restarted && false) {
-								run.Violation("failover:transient-error-not-retried", fmt.Sprintf("%s (budget %d attempts per pass)", desc, budget), replay)
-							}
-						}
-						idx++
-					}
-					if expectOK != (derr == nil) {
-						run.Violation("failover:result-does-not-match-attempts", desc, replay)
-						return
-					}
-					if derr == nil {
-						err := tr.Apply(out, resp.Header.Get("Content-Type"), resp.Body)
-						resp.Body.Close()
-						if err == nil {
-							_, err = relicx.Verify(out, relicx.TrustOpts())
-						}
+					v0 := run.NumViolations()
+					st := mc.Explore(mc.Options{MaxDeviations: -1, Stop: func() bool { return run.NumViolations() > v0 }}, func(c *mc.Ctx) {
+						work := filepath.Join(scratch, "client")
+						os.MkdirAll(work, 0o755)
+						out := filepath.Join(work, base)
+						copyFile(in, out)
+						f, err := os.OpenFile(out, os.O_RDWR, 0)
 						if err != nil {
-							run.Violation("transport:signature-wrong-after-"+fmt.Sprint(len(attempts))+"-attempts", desc+": "+err.Error(), replay)
+							panic(err)
+						}
+						defer f.Close()
+						opts := signers.SignOpts{Path: out, Hash: crypto.SHA256, Flags: mustFlags(mod, subj.flags)}
+						tr, err := mod.GetTransform(f, opts)
+						if err != nil {
+							panic(err)
+						}
+						type att struct {
+							host, outcome, reqEnc string
+							bodyHash              [32]byte
+						}
+						var attempts []att
+						hc := &http.Client{Transport: rt(func(req *http.Request) (*http.Response, error) {
+							if len(attempts) >= 2*budget+2 {
+								// horizon: the loop has long exceeded its attempt budget; end it
+								// with a permanent answer (judged below as a violation)
+								attempts = append(attempts, att{host: req.URL.Host, outcome: "403"})
+								return &http.Response{StatusCode: 403, Status: "403 X", Header: http.Header{}, Body: io.NopCloser(strings.NewReader("horizon")), Request: req}, nil
+							}
+							k := c.Choose(len(attemptOutcomes), fmt.Sprintf("attempt-%d", len(attempts)+1))
+							o := attemptOutcomes[k]
+							a := att{host: req.URL.Host, outcome: o, reqEnc: req.Header.Get("Content-Encoding")}
+							// what the server would see after decoding
+							raw, _ := io.ReadAll(req.Body)
+							dreq := httptest.NewRequest("POST", "/x", bytes.NewReader(raw))
+							dreq.Header.Set("Content-Encoding", a.reqEnc)
+							lastBody = nil
+							decoder.ServeHTTP(httptest.NewRecorder(), dreq)
+							a.bodyHash = sha256.Sum256(lastBody)
+							attempts = append(attempts, a)
+							mk := func(code int) *http.Response {
+								return &http.Response{StatusCode: code, Status: fmt.Sprintf("%d X", code), Header: http.Header{}, Body: io.NopCloser(strings.NewReader("scripted")), Request: req}
+							}
+							switch o {
+							case "ok":
+								sreq := httptest.NewRequest(req.Method, req.URL.RequestURI(), bytes.NewReader(raw))
+								sreq.Header = req.Header.Clone()
+								sreq.RemoteAddr = "192.0.2.77:4444"
+								sreq.TLS = &tls.ConnectionState{PeerCertificates: []*x509.Certificate{relicx.ClientCert()}}
+								rec := httptest.NewRecorder()
+								handler.ServeHTTP(rec, sreq)
+								res := rec.Result()
+								res.Request = req
+								return res, nil
+							case "503":
+								return mk(503), nil
+							case "500":
+								return mk(500), nil
+							case "406":
+								return mk(406), nil
+							case "403":
+								return mk(403), nil
+							case "refused":
+								return nil, &url.Error{Op: "Post", URL: req.URL.String(), Err: &os.SyscallError{Syscall: "connect", Err: syscall.ECONNREFUSED}}
+							}
+							panic("unreachable")
+						})}
+						q := url.Values{}
+						q.Set("key", "rsaA")
+						q.Set("filename", base)
+						q.Set("sigtype", subj.sigType)
+						if err := opts.Flags.ToQuery(q); err != nil {
+							panic(err)
+						}
+						resp, derr := remotecmd.VerifDoRequest(cfg.Remote, hc, bases, "sign", "POST", enc, &q, tr)
+						run.Eval(1)
+						var hist []string
+						for _, a := range attempts {
+							hist = append(hist, a.host[:2]+":"+a.outcome+"/"+a.reqEnc)
+						}
+						desc := fmt.Sprintf("accept-encoding %q, %d servers, retries %d: attempts [%s] -> err=%v", enc, nsrv, retries, strings.Join(hist, " "), derr)
+						replay := map[string]any{"encodings": enc, "servers": nsrv, "retries": retries, "choices": c.Trace}
+						if subj.name != "" {
+							desc = "upload of " + subj.name + ", " + desc
+							replay["stream"] = subj.name
+						}
+						if len(attempts) > 1 {
+							run.Distinct(desc)
+						}
+						if len(attempts) == 3 && c.Trace[0] == 1 {
+							run.Sample(desc)
+						}
+						if len(attempts) > 2*budget+1 {
+							run.Violation("failover:more-attempts-than-budget", desc, replay)
 							return
 						}
-						run.Outcome("client:signed-after-" + fmt.Sprint(len(attempts)))
-					} else {
-						run.Outcome("client:failed")
+						// reference walk
+						// the client restarts once without compression after a 406 whenever
+						// it had been told any server encodings at all
+						compressed := enc != ""
+						expectOK := false
+						restarted := false
+						idx := 0 // index into the (repeated) server list
+						for i, a := range attempts {
+							last := i == len(attempts)-1
+							wantHost := fmt.Sprintf("s%d", idx%nsrv)
+							if !strings.HasPrefix(a.host, wantHost) {
+								run.Violation("failover:servers-not-tried-in-order", desc, replay)
+								return
+							}
+							if a.bodyHash != attempts[0].bodyHash {
+								run.Violation("failover:request-body-differs-between-attempts", fmt.Sprintf("%s: attempt %d decodes to %x, attempt 1 to %x", desc, i+1, a.bodyHash[:6], attempts[0].bodyHash[:6]), replay)
+								return
+							}
+							if restarted && a.reqEnc != "" {
+								run.Violation("failover:compression-not-dropped-after-406", desc, replay)
+							}
+							switch a.outcome {
+							case "ok":
+								expectOK = true
+								if !last {
+									run.Violation("failover:attempt-after-success", desc, replay)
+								}
+							case "403":
+								if !last {
+									run.Violation("failover:permanent-error-retried", desc, replay)
+								}
+							case "406":
+								if compressed && !restarted {
+									restarted = true
+									idx = -1 // start over at the first server, uncompressed
+								} else if !last {
+									run.Violation("failover:406-without-compression-retried", desc, replay)
+								}
+							default: // transient
+								if last && idx+1 < budget && !(restarted && false) {
+									run.Violation("failover:transient-error-not-retried", fmt.Sprintf("%s (budget %d attempts per pass)", desc, budget), replay)
+								}
+							}
+							idx++
+						}
+						if expectOK != (derr == nil) {
+							run.Violation("failover:result-does-not-match-attempts", desc, replay)
+							return
+						}
+						if derr == nil {
+							err := tr.Apply(out, resp.Header.Get("Content-Type"), resp.Body)
+							resp.Body.Close()
+							if err == nil && mod.Fixup != nil {
+								if f2, ferr := os.OpenFile(out, os.O_RDWR, 0); ferr == nil {
+									err = mod.Fixup(f2)
+									f2.Close()
+								}
+							}
+							if err == nil {
+								_, err = relicx.Verify(out, relicx.TrustOpts())
+							}
+							if err != nil {
+								run.Violation("transport:signature-wrong-after-"+fmt.Sprint(len(attempts))+"-attempts", desc+": "+err.Error(), replay)
+								return
+							}
+							if subj.ref != "" {
+								if err := sameEmbeddedDigests(subj.sigType, out, subj.ref); err != nil {
+									run.Violation("transport:embedded-digests-differ-from-standalone-signing-after-"+fmt.Sprint(len(attempts))+"-attempts:"+subj.sigType, desc+": "+err.Error(), replay)
+									return
+								}
+								run.Outcome("client:embedded-digests-equal-standalone-signing")
+							}
+							run.Outcome("client:signed-after-" + fmt.Sprint(len(attempts)))
+						} else {
+							run.Outcome("client:failed")
+						}
+					})
+					run.AddStates(st.Executions)
+					run.AddTransitions(st.ChoicePoints)
+					if st.Capped {
+						run.Capped(fmt.Sprintf("failover exploration for encodings %q / %d servers / retries %d stopped at its first violation", enc, nsrv, retries))
 					}
-				})
-				run.AddStates(st.Executions)
-				run.AddTransitions(st.ChoicePoints)
-				if st.Capped {
-					run.Capped(fmt.Sprintf("failover exploration for encodings %q / %d servers / retries %d stopped at its first violation", enc, nsrv, retries))
 				}
 			}
 		}
@@ -693,6 +839,9 @@ func abandonPhase(cfg *config.Config) {
 	if run.Thorough() {
 		bound = 2
 	}
+	deadlocks := map[string]int{}
+	deadlockReruns := 0
+	defer func() { run.Set("abandoned_attempt_deadlock_verdicts_rerun", deadlockReruns) }()
 	cuts := []int{0, 1, 10}
 	encs := []string{"gzip", "x-snappy-framed", ""}
 	for _, enc := range encs {
@@ -766,6 +915,19 @@ func abandonPhase(cfg *config.Config) {
 				if c.Deviations() > 0 {
 					run.Distinct("abandon|" + desc)
 				}
+				if s.Deadlock {
+					// "nobody can move any more" is read off the goroutines' states
+					// (runtime.Stack), which on a loaded machine can be caught in
+					// passing (a goroutine suspended for a stack scan is neither
+					// running nor parked). A deadlock of the code under test comes
+					// back when the same schedule is run again; the verdict is given
+					// the third time.
+					k := fmt.Sprintf("%q/%d/%v", enc, cut, c.Trace)
+					if deadlocks[k]++; deadlocks[k] < 3 {
+						deadlockReruns++
+						panic(mc.Divergence("deadlock verdict, schedule run again: " + k))
+					}
+				}
 				switch {
 				case s.Deadlock:
 					run.Violation("abandoned-attempt:deadlock", desc+"\n"+strings.Join(s.Log, " "), replay)
@@ -809,15 +971,50 @@ func main() {
 	defer os.RemoveAll(scratch)
 	cfg := relicx.ServerConfig("file")
 	relicx.Use(cfg)
+	only := func(name string) bool {
+		// development switch: C09_ONLY=chunk,client runs those phases only
+		v := os.Getenv("C09_ONLY")
+		if v == "" {
+			return true
+		}
+		for _, p := range strings.Split(v, ",") {
+			if p == name {
+				return true
+			}
+		}
+		return false
+	}
 	ss := streams()
+	nBase := len(ss)
+	fopts := fileOptions(ss)
+	withFiles := fileOptStreams(cfg, ss, fopts)
+	signedBefore := signedStreams(cfg, ss)
+	ss = append(ss, withFiles...)
+	ss = append(ss, signedBefore...)
 	uploads := rereadPhase(ss)
-	chunkPhase(cfg, ss, uploads)
-	clientPhase(cfg)
-	abandonPhase(cfg)
-	optionsPhase()
-	resignPhase(cfg)
-	run.Rule("(a) the client-side transform of 22 upload streams (every signer type, PGP in three modes) read three times; (b) each stream x every read-size schedule: constant sizes {1,2,7,511,512,513,4095,4096,4097,65535,65536,65537,2^20-1,2^20,2^20+1,unbounded}, ordered pairs as 2-cycles (quick: 7-value sub-ladder; thorough: full ladder), one short read (1 byte; one byte under the copy buffer) at every read index of the default schedule (capped at 80 indices) - the real server-side Sign, then Apply, Fixup and relic verify with integrity on; (c)+(d) every sequence of per-attempt outcomes {ok, 503, 500, 406, refused, 403} through the real client doRequest loop for accept-encodings {none, gzip, snappy, both, unknown} x 1-3 servers x retries {1,3}; (e) an upload attempt cut short by the server after {0,1,10} bytes (503, request body closed by the transport) followed by a second attempt from the same Transformer, for gzip / snappy / identity: the abandoned attempt's compressor goroutine is adopted by the cooperative scheduler at its first read of the shared file, every interleaving of file seek/read operations of the two attempts up to 1 (thorough 2) preemptions, threads parked in the pipe followed by the scheduler's monitor; (f) the options channel: every signer module x every single option and every pair of options, each explicitly set to every value of {true,false} / {plain, reserved characters, empty}: command line -> FlagsFromCmdline -> ToQuery -> encoded query -> FlagsFromQuery, every option read on both sides; (g) {pe, ps1, cab, msi, dmg, mach-o, xap, jar, apk, vsix, appx} x {unsigned, signed before with a ten-certificate chain and SHA-512, with page hashes, with a P-256 key}: the server's result applied over the input and into a new file, both results compared and verified. distinct_nontrivial = (stream,schedule) pairs + failover histories with >=2 attempts")
+	if only("fileopts") {
+		fileOptsPhase(ss, fopts)
+	}
+	if only("chunk") {
+		chunkPhase(cfg, ss, uploads)
+	}
+	if only("client") {
+		clientPhase(cfg, withFiles)
+	}
+	if only("abandon") {
+		abandonPhase(cfg)
+	}
+	if only("options") {
+		optionsPhase()
+	}
+	if only("resign") {
+		resignPhase(cfg)
+	}
+	run.Set("bounds", map[string]any{"upload_streams": len(ss), "fixture_streams": nBase, "streams_with_file_naming_options": len(withFiles), "already_signed_streams": len(signedBefore)})
+	run.Rule("(a) the client-side transform of every upload stream read three times (and once more with the input on a pipe): 24 fixture streams (every signer type, PGP in three modes), the streams of (h) that carry option files, and the already-signed inputs of (i); (b) each stream (fixture streams of the streaming digesters, the streams of (h) and of (i)) x every read-size schedule: constant sizes {1,2,7,511,512,513,4095,4096,4097,65535,65536,65537,2^20-1,2^20,2^20+1,unbounded}, ordered pairs as 2-cycles (quick: 7-value sub-ladder; thorough: full ladder), one short read (1 byte; one byte under the copy buffer) at every read index of the default schedule (capped at 80 indices) - the real server-side Sign, then Apply, Fixup and relic verify with integrity on; where the result is a binary patch, the places of the input it replaces (offset, length removed; read from the patch header by the harness) must be the same under every schedule; (c)+(d) every sequence of per-attempt outcomes {ok, 503, 500, 406, refused, 403} through the real client doRequest loop for accept-encodings {none, gzip, snappy, both, unknown} x 1-3 servers x retries {1,3} for a plain archive, and for every stream of (h) with 2 servers, one pass, accept-encodings {none, gzip} (thorough: all five): the decoded body of every attempt equals the first attempt's, and the file signed after any history embeds the digests that standalone signing embeds; (e) an upload attempt cut short by the server after {0,1,10} bytes (503, request body closed by the transport) followed by a second attempt from the same Transformer, for gzip / snappy / identity: the abandoned attempt's compressor goroutine is adopted by the cooperative scheduler at its first read of the shared file, every interleaving of file seek/read operations of the two attempts up to 1 (thorough 2) preemptions, threads parked in the pipe followed by the scheduler's monitor; (f) the options channel: every signer module x every single option and every pair of options, each explicitly set to every value of {true,false} / {plain, reserved characters, empty}: command line -> FlagsFromCmdline -> ToQuery -> encoded query -> FlagsFromQuery, every option read on both sides; (g) {pe, ps1, cab, msi, dmg, mach-o, xap, jar, apk, vsix, appx} x {unsigned, signed before with a ten-certificate chain and SHA-512, with page hashes, with a P-256 key}: the server's result applied over the input and into a new file, both results compared and verified. (h) options that name a client-side file, found from the signers' own flag definitions (every string-valued option of every module that can sign: the transform succeeds with the path of an existing file and fails with a path that does not exist): per module every non-empty subset of these options x file lengths {0,1,511,512,513}, arbitrary content - the stream read three times is identical, is not the stream without the options, and every read changes when one byte of any one named file is changed; with contents the signer accepts (all of a module's options together; thorough: also each alone) the streams go through (a), (b) and (c)+(d), where the code-signature slots of the result other than the CMS blob (code directories with page and bound-file hashes, requirements, entitlements; located by the harness through LC_CODE_SIGNATURE / the koly trailer) must equal those of standalone signing with the same options; (i) already-signed inputs: every fixture stream except the detached-signature ones and the 2 MiB archive, signed before {with the same key and digest; with a ten-certificate chain and SHA-512 (the larger chain alone where the type refuses SHA-512); into another slot where the format has several (.deb roles)}, kept if relic verify accepts it, then through (a) and (b) (inputs over 512 KiB: thorough). distinct_nontrivial = (stream,schedule) pairs + failover histories with >=2 attempts")
 	run.Assume("'the same content digest' is decided by relic's verifier accepting the patched file with integrity checking on (the digest the verifier recomputes is a function of the file alone), since signatures embed the signing time and cannot be compared byte-wise")
 	run.Assume("request bodies are compared after decoding with relic's own compresshttp middleware")
+	run.Assume("an option names a client-side file if the client-side transform fails when the named path does not exist; an option whose file is opened only later (or never) on the client is not found this way and is recorded as an outcome when its help text says 'file'")
+	run.Assume("abandoned-attempt exploration: a deadlock is read off goroutine states sampled from runtime.Stack; the verdict is given when the same schedule ends that way three times in a row")
 	run.Finish()
 }
